@@ -34,6 +34,8 @@ type c09Input struct {
 	// Many > 0: instead of A, series a carries Many samples spread evenly over seconds 0..8 (values 1..Many in a
 	// scrambled order): windows holding more samples than any small-slice threshold of sorting / buffering code.
 	Many int `json:"many,omitempty"`
+	// EmptyB: the lines of series b are empty (a sample all the same: it counts, and weighs 0 bytes)
+	EmptyB bool `json:"empty_b,omitempty"`
 }
 
 func (in c09Input) unit() int64 {
@@ -73,6 +75,9 @@ var c09Fns = []c09Fn{
 	{name: "stddev-big-by", op: "stddev_over_time", unwrap: true, group: true, vals: "big"},
 	{name: "stdvar-big-by", op: "stdvar_over_time", unwrap: true, group: true, vals: "big"},
 	{name: "avg-big-by", op: "avg_over_time", unwrap: true, group: true, vals: "big"},
+	{name: "max-neg-by", op: "max_over_time", unwrap: true, group: true, vals: "neg"},
+	{name: "min-neg-by", op: "min_over_time", unwrap: true, group: true, vals: "neg"},
+	{name: "last-neg", op: "last_over_time", unwrap: true, vals: "neg"},
 	{name: "sum-huge", op: "sum_over_time", unwrap: true, vals: "huge"},
 	{name: "max-huge-by", op: "max_over_time", unwrap: true, group: true, vals: "huge"},
 	{name: "sum-bytes", op: "sum_over_time", unwrap: true, conv: "bytes", vals: "bytes"},
@@ -102,6 +107,8 @@ func c09Data(in c09Input, fn c09Fn) []mockq.Rec {
 				v = "3"
 			case "big": // large values lying close together (a variance from sums of squares cancels)
 				v = strconv.Itoa(10000000 + s + k)
+			case "neg": // nothing positive: zeros and negative values
+				v = []string{"0", "-1", "-0.5", "0", "-1000000", "-0"}[(s+k)%6]
 			case "huge": // whole numbers of ten and more digits, around 2^32 and far beyond
 				v = []string{"4294967295", "4294967296", "4294967297", "5000000000", "99999999999", "9007199254740993"}[(s+k)%6]
 			case "bytes":
@@ -112,7 +119,11 @@ func c09Data(in c09Input, fn c09Fn) []mockq.Rec {
 			}
 			labels = append(labels, mockq.KV{K: "v", V: v})
 		}
-		recs = append(recs, mockq.Rec{TS: c09Base*sec + int64(s)*in.unit(), Line: "xy\u00e9\u4e16", Labels: labels}) // 4 characters, 7 bytes
+		line := "xy\u00e9\u4e16" // 4 characters, 7 bytes
+		if in.EmptyB && series == "b" {
+			line = ""
+		}
+		recs = append(recs, mockq.Rec{TS: c09Base*sec + int64(s)*in.unit(), Line: line, Labels: labels})
 	}
 	for k := 0; k < in.Many; k++ {
 		labels := []mockq.KV{{K: "s", V: "a"}}
@@ -315,6 +326,13 @@ func c09Run(r *vkit.Run) {
 											}
 										}
 										in.Limit = 0
+									}
+									if d.b && tf && off == 0 && (fn.op == "bytes_over_time" || fn.op == "bytes_rate" || fn.op == "count_over_time") {
+										in.EmptyB = true
+										if c09Check(r, in) {
+											nontrivial = true
+										}
+										in.EmptyB = false
 									}
 									if r.WantSample() && len(d.a) == 3 && span == 8 && step == 2 && fi == 1 {
 										r.Sample(map[string]any{"input": in, "query": c09Expr(in, fn).Text()})
